@@ -282,3 +282,39 @@ def spec_diagram(d):
     """`mk` expression rebuilding a real diagram through the scanning constructor."""
     return ("mk", spec_ty(d.dom), spec_ty(d.cod), [spec_box(b) for b in d.boxes],
             [int(o) for o in d.offsets])
+
+
+# ------------------------------------------------------------------ small-scope enumeration
+
+def enumerate_diagrams(signature, doms, max_depth, max_width):
+    """ALL well-typed diagrams (as `mk` expressions) with domain in `doms`, at most `max_depth`
+    boxes drawn from `signature` (box specs), every intermediate type at most `max_width` wide.
+    Exhaustive for that finite space; used by the thorough tiers."""
+    out = []
+
+    def rec(dom, scan, boxes, offsets):
+        out.append(("mk", list(dom), list(scan), list(boxes), list(offsets)))
+        if len(boxes) == max_depth:
+            return
+        for b in signature:
+            k = len(b["dom"])
+            for off in range(0, len(scan) - k + 1):
+                if scan[off:off + k] != b["dom"]:
+                    continue
+                new = scan[:off] + b["cod"] + scan[off + k:]
+                if len(new) > max_width:
+                    continue
+                rec(dom, new, boxes + [b], offsets + [off])
+    for dom in doms:
+        rec(dom, list(dom), [], [])
+    return out
+
+
+def small_signature():
+    a, b = ("a", 0), ("b", 0)
+
+    def bx(name, dom, cod, dagger=False):
+        return dict(kind="g", name=name, dom=dom, cod=cod, dagger=dagger, data=None)
+    return [bx("s", [], []), bx("u", [], [a]), bx("e", [a], []), bx("f", [a], [b]),
+            bx("g", [b], [a, a]), bx("h", [a, b], [b]), bx("k", [a], [a], dagger=True),
+            dict(kind="s", name=None, dom=[a, b], cod=[b, a], dagger=False, data=None)]
